@@ -6,7 +6,7 @@ only = set(sys.argv[1:])
 for f in sorted(glob.glob("/verif/seeded/*/meta.json")):
     m = json.load(open(f)); name = m["name"]
     if only and name not in only: continue
-    checks = sorted({r["check"] for r in m.get("ran", [])} | {m["property"]})
+    checks = sorted({r["check"] for r in m.get("ran", []) + m.get("first_ran", [])} | {m["property"]})
     wt = f"/tmp/seedwt_{name}"
     subprocess.run(f"git -C /repo worktree remove --force {wt} 2>/dev/null; git -C /repo worktree add -q {wt} HEAD && git -C {wt} apply /verif/seeded/{name}/patch.diff", shell=True, check=True)
     res = {}
